@@ -137,6 +137,10 @@ def run(ctx, rep):
                     this['loop_contexts'] = True
             if n.startswith('symbols::SymbolTable::') and ('reset' in n or 'rollback' in n or 'restore' in n or 'truncate' in n):
                 this['symbols'] = True
+            # ... or that method spliced in (it is new and has this one caller): its cut-backs are calls of this path
+            inl_ = ca.blocks[c[0]].get('inl') or () if isinstance(c[0], int) and c[0] < len(ca.blocks) else ()
+            if (n.endswith('::truncate') or n.endswith('::clear')) and any(isinstance(h_, str) and h_.startswith('symbols::SymbolTable::') for h_ in inl_):
+                this['symbols'] = True
         for w in p.writes:
             fl = place_fields(w[3]['place'])
             if fl[:1] == ['last_instruction']:
@@ -330,7 +334,18 @@ def check_reset_covers_define(ctx, rep, rule):
     forgets (a cached count of names, say) leaves the slots of the next lines shifted."""
     F = ctx.facts()
     d = F.fn('symbols::Context::define')
-    r = F.fn('symbols::SymbolTable::reset_to_global')
+    r = F.fns.get('symbols::SymbolTable::reset_to_global')
+    if r is None:
+        # the reset under another name (or spliced into its only caller): the SymbolTable method the shape analysis classified as
+        # cutting back contexts, scopes and definitions
+        from rules import csa_run as _cr
+        cands = sorted(n_ for n_, w_ in _cr.analyse(ctx)['csa'].symtab_reset.items() if 'definitions' in w_)
+        allf = dict(getattr(F, 'transparent_fns', {}) or {})
+        allf.update(F.fns)
+        for n_ in cands:
+            r = r or allf.get('symbols::SymbolTable::' + n_)
+        if r is None:
+            raise CheckerError('%s: no method of SymbolTable takes the definitions of a failed line back (anchor)' % rule)
     wd = _ctx_fields_touched(F, d)
     wr = _ctx_fields_touched(F, r)
     rep.count('define_fields', len(wd))
